@@ -12,7 +12,9 @@ from .scenes import scene
 from .util import frame_state
 
 DEFECTS = ['drop_column', 'dup_row', 'dup_row_hidden_by_extra_column', 'dup_after_coercion', 'coincident_0_non0', 'coincident_0_non0_other_ceilo',
-           'coincident_vv_nonvv', 'vv_next_to_nondetection_other_ceilo', 'wrong_dtypes', 'extra_columns', 'empty', 'not_a_frame']
+           'coincident_vv_nonvv', 'vv_next_to_nondetection_other_ceilo', 'wrong_dtypes', 'extra_columns', 'empty', 'not_a_frame',
+           # anomalies documented as warnings only: accepted, and handed back as they are
+           'type0_with_height', 'negative_height', 'type1_without_height', 'type2_without_type1']
 REFUSED = {'drop_column', 'dup_row', 'dup_row_hidden_by_extra_column', 'dup_after_coercion', 'coincident_0_non0', 'coincident_vv_nonvv', 'empty', 'not_a_frame'}
 
 
@@ -61,6 +63,23 @@ def mutate(df, defect, rng):
         r['height'] = 250.0
         r['ceilo'] = 'other_instrument'
         return pd.concat([df, r], ignore_index=True)
+    if defect in ('type0_with_height', 'negative_height', 'type1_without_height'):
+        want = {'type0_with_height': 0, 'negative_height': 1, 'type1_without_height': 1}[defect]
+        rows = df.index[df['type'] == want]
+        if len(rows) == 0:
+            return None
+        d = df.copy()
+        pick = rng.sample(list(rows), min(len(rows), rng.choice([1, 3])))
+        d.loc[pick, 'height'] = {'type0_with_height': rng.choice([0.0, 1400.0]), 'negative_height': -10.0, 'type1_without_height': np.nan}[defect]
+        return d
+    if defect == 'type2_without_type1':
+        hit = df[df['type'] == 1]
+        if len(hit) == 0:
+            return None
+        r = hit.iloc[[0]].copy()
+        r['dt'] = float(df['dt'].min()) - 7.5
+        r['type'] = 2
+        return pd.concat([df, r], ignore_index=True)
     if defect == 'wrong_dtypes':
         d = df.copy()
         d['ceilo'] = d['ceilo'].astype(object)
@@ -100,6 +119,18 @@ def check(k, seed):
                 combo = [x for x in combo if x != d]
             else:
                 cur = nxt
+    # the index is the caller's business: labels of any kind, repeated labels, a level named like a column (column promoted and kept)
+    style = ['plain', 'plain', 'dt_promoted', 'named', 'keyed'][k % 5]
+    if isinstance(cur, pd.DataFrame) and len(cur):
+        if style == 'dt_promoted' and 'dt' in cur.columns:
+            cur = cur.set_index('dt', drop=False)
+        elif style == 'named':
+            cur = cur.copy()
+            cur.index = [i // 2 for i in range(len(cur))]
+            cur.index.name = rng.choice(['ceilo', 'dt', 'type', 'row'])
+        elif style == 'keyed' and 'ceilo' in cur.columns:
+            cur = cur.set_index(['ceilo', cur.index], drop=False) if False else cur.set_index(pd.MultiIndex.from_arrays(
+                [cur['ceilo'].astype(str), range(len(cur))], names=['ceilo', None]))
     should_refuse = bool(set(combo) & REFUSED)
     before = frame_state(cur) if isinstance(cur, pd.DataFrame) else None
     arg = cur
@@ -144,7 +175,7 @@ def check(k, seed):
         bad = [str(w.message) for w in wl2 if ('Column' in str(w.message))]
         if bad:
             fails.append(f'{combo}: checking an already-checked frame warns about columns / dtypes: {bad[:1]}')
-    return desc, {'defects': combo}, fails, None
+    return desc, {'defects': combo, 'index': style}, fails, None
 
 
 def _worker(a):
